@@ -2,6 +2,8 @@
   Driver.JR — protocol command `jr`: the ten proportionality checkers as the code enumerates groups,
   and the ten definitions over the expanded voter list.
   `jr B= P= T=app|card V= sat=<measure> W=<ids>`  ->  `ok <10 checker bits> <10 definition bits>`
+  `cohesive B= P= T=app|card V=`  ->  `ok <entry indices>:<project ids>;…` — `JR.cohesiveGroupsBy` over the entries tagged with
+     their position (entries as `enumerate(profile)` sees them), in the order of the enumeration
 -/
 import Driver.Proto
 import PabuModel.JR
@@ -24,5 +26,17 @@ def cmdJR (a : Args) : String :=
         full := satProject μ I P (.app I.projects) }
     "ok " ++ bitsOf (JR.notions.map (fun ku => JR.checker E M card ku.1 ku.2 W)) ++ " " ++
       bitsOf (JR.notions.map (fun ku => JR.definition E M card ku.1 ku.2 W))
+
+def cmdCohesive (a : Args) : String :=
+  let I := parseInst a
+  let P := parseProfile a
+  let card := a.get "T" == "card"
+  let M : List (Nat × (JR.Voter × Nat)) :=
+    (List.range P.length).filterMap (fun i => P[i]?.map (fun e => (i, ({ app := e.1.mem, u := fun _ => 0 }, e.2))))
+  let E : JR.Setting :=
+    { n := P.numBallots, budget := I.budget, cost := I.cost, projects := I.projects, full := fun _ => 0 }
+  let showIds (l : List Nat) : String := ".".intercalate (l.map toString)
+  "ok " ++ ";".intercalate ((JR.cohesiveGroupsBy E card (fun x => x.2) M).map
+    (fun x => showIds (x.1.map (fun y => y.1)) ++ ":" ++ showIds x.2))
 
 end Pabu.Driver
